@@ -6,6 +6,7 @@ import (
 	"os"
 	"path/filepath"
 	"sort"
+	"strconv"
 	"strings"
 	"sync"
 
@@ -198,7 +199,16 @@ func (e *c31Env) evalBatch(ins []c31Input, mode int) (items [][]string, gitNoRou
 		return items, 0
 	}
 	// git's own round trip (precondition of the round-trip demand)
-	gitRT := strings.Fields(string(gG.MustRunIn(stdin, "hash-object", "--stdin-paths").Out))
+	// (files are touched first so that git add really re-reads them)
+	for i := range ins {
+		hSetMtime(filepath.Join(rootG, names[i]), hOldTime+100)
+	}
+	gG.MustRun("add", "-A")
+	gitIdx := c31LsFiles(gG)
+	gitRT := make([]string, len(ins))
+	for i := range ins {
+		gitRT[i] = gitIdx[names[i]]
+	}
 	goIdx := c31LsFiles(e.g.In(rootB))
 	for i, in := range ins {
 		gb, err1 := os.ReadFile(filepath.Join(rootG, names[i]))
@@ -263,6 +273,17 @@ func runC31(c *fw.Ctx) {
 	g, dir := c.InitRepo("c31tmpl", "sha1", false)
 	e := &c31Env{c: c, skel: hReadSkel(filepath.Join(dir, ".git")), g: g}
 
+	if q := os.Getenv("VERIF_C31_INPUT"); q != "" { // triage aid: one Go-quoted input, all modes
+		in, err := strconv.Unquote(q)
+		if err != nil {
+			fw.Abort("VERIF_C31_INPUT: %v", err)
+		}
+		for m := range c31Modes {
+			its, n := e.evalBatch([]c31Input{{"", in}}, m)
+			fmt.Printf("autocrlf=%s input=%q disagreements=%v git-no-roundtrip=%d\n", c31Modes[m], in, its[0], n)
+		}
+		return
+	}
 	sigma := []string{"a", "\r", "\n", "\x00", "\x01", "\x7f", "\x1a"}
 	maxLen := c.Pick(5, 6)
 	var ins []c31Input
@@ -347,13 +368,37 @@ func runC31(c *fw.Ctx) {
 	})
 	c.Extra("strings_git_itself_does_not_round_trip", noRT)
 
-	// group by (item, shape) and minimise the first string of every group
+	// group by (item, shape) and minimise the first string of every group; a
+	// failing family string (too long to minimise) joins the enumerated group
+	// that shows the very same item, if there is one
 	groups := map[string]failRec{}
 	counts := map[string]int{}
+	enumItem := map[string]string{} // item -> first enumerated group key
+	sort.Slice(frs, func(i, j int) bool { return frs[i].ord < frs[j].ord })
 	for _, fr := range frs {
+		if fr.in.name != "" {
+			continue
+		}
 		k := fr.item + " | " + c31Shape(fr.in.data)
 		counts[k]++
-		if g0, ok := groups[k]; !ok || fr.ord < g0.ord {
+		if _, ok := groups[k]; !ok {
+			groups[k] = fr
+		}
+		if _, ok := enumItem[fr.item]; !ok {
+			enumItem[fr.item] = k
+		}
+	}
+	for _, fr := range frs {
+		if fr.in.name == "" {
+			continue
+		}
+		if k, ok := enumItem[fr.item]; ok {
+			counts[k]++
+			continue
+		}
+		k := fr.item + " | " + fr.in.name
+		counts[k]++
+		if _, ok := groups[k]; !ok {
 			groups[k] = fr
 		}
 	}
